@@ -3772,13 +3772,26 @@ constexpr auto operator/(RandomAccessIterator data, multi::extensions_t<D> exten
 #endif
 
 template<class In, class T, dimensionality_type N, class TP, class = std::enable_if_t<(N > 1)>, class = decltype((void)adl_begin(*In{}), adl_end(*In{}))>
-constexpr auto uninitialized_copy
+#if __cplusplus >= 202002L || (defined(_MSVC_LANG) && _MSVC_LANG >= 202002L)
+constexpr
+#endif
+auto uninitialized_copy
 // require N>1 (this is important because it forces calling placement new on the pointer
 (In first, In last, multi::array_iterator<T, N, TP> dest) {
-	while(first != last) {  // NOLINT(altera-unroll-loops) TODO(correaa) consider using an algorithm
-		adl_uninitialized_copy(adl_begin(*first), adl_end(*first), adl_begin(*dest));
-		++first;
-		++dest;
+	auto const dest_first = dest;
+	try {
+		while(first != last) {  // NOLINT(altera-unroll-loops) TODO(correaa) consider using an algorithm
+			adl_uninitialized_copy(adl_begin(*first), adl_end(*first), adl_begin(*dest));
+			++first;
+			++dest;
+		}
+	} catch(...) {  // the failing sub-array has been rolled back by the nested call: destroy the completed ones
+		for(auto it = dest_first; it != dest; ++it) {  // NOLINT(altera-unroll-loops)
+			for(auto&& elem : (*it).elements()) {  // NOLINT(altera-unroll-loops)
+				std::addressof(elem)->~T();
+			}
+		}
+		throw;
 	}
 	return dest;
 }
